@@ -10,9 +10,12 @@ import threading
 from common import scratch_dir
 
 LEVEL = 'proof'
-MODULES = ['Pysmi.Props.C13']
-LAKE_TARGETS = ['Pysmi.Props.C13']
+MODULES = ['Pysmi.Props.C13', 'Pysmi.Pins.SkelC13']
+LAKE_TARGETS = ['Pysmi.Props.C13', 'Pysmi.Pins.SkelC13']
 THEOREMS = [
+    'Pysmi.Pins.SkelC13.pin_fileWriterPut',
+    'Pysmi.Pins.SkelC13.pin_fileWriterGet',
+    'Pysmi.Pins.SkelC13.pin_pyFileWriterPut',
     'Pysmi.Writer.solo_drive',
     'Pysmi.Writer.C13_terminates',
     'Pysmi.Writer.C13_atomic',
